@@ -65,28 +65,203 @@ def _r1(ctx):
     pkg = package(ctx.tree)
     fn = pkg.method("TemplateLoader", "_assign_rates")
     ctx.saw(FILE, "TemplateLoader._assign_rates")
-    fl = Flow(fn, FILE)
+    # small loop-free helpers of the class (self._x(..)) are read as the expressions they return
+    fl = Flow(fn, FILE, resolver=lambda name: pkg.resolve("TemplateLoader", name)[1])
     W = (FILE, fn.lineno)
     rets = [f for f in fl.facts if f.kind == "return"]
     if len(rets) != 1:
         ctx.unrec("R1", "_assign_rates:return", W, f"expected one return, found {len(rets)}")
         return
     v = simp(rets[0].value)
-    if v[0] != "comp" or len(v[3]) != 1:
-        ctx.unrec("R1", "_assign_rates:return", (FILE, rets[0].line), "returned value is not a single comprehension over the reactions")
-        return
-    tg, it, ifs = v[3][0]
+    from ..valueflow import seq_base, loop_built_seq, as_map
+    if v[0] == "comp" and len(v[3]) == 1:
+        tg, it, ifs = v[3][0]
+        elt0 = v[2]
+    else:
+        # the same list written as `out = []; for ..: <build the statement>; out.append(statement)`
+        lb = loop_built_seq(fl, v[1]) if v[0] == "acc" else None
+        if lb is None:
+            ctx.unrec("R1", "_assign_rates:return", (FILE, rets[0].line), "returned value is not a single comprehension (or one-append-per-iteration loop) over the reactions")
+            return
+        it, ifs, elt0 = lb[0].iter, (), lb[1]
     R = ("param", "reactions")
-    # the comprehension enumerates zip(guards, rate expressions), both position-preserving views of `reactions`
-    from ..valueflow import seq_base
+    # the statements enumerate zip(guards, rate expressions), both position-preserving views of `reactions`
+    import builtins
+    import os
+    from ..valueflow import strip_transparent, subst
+    SELFS = (("param", "self"), ("param", "cls"))
+    cache, serial = {}, itertools.count(1)
+
+    def shift(v, off):
+        """loop ids / comprehension-variable ids of a helper's own flow moved out of the way of the caller's"""
+        if not isinstance(v, tuple) or not v:
+            return v
+        if v[0] in ("elem", "idx", "key", "val", "carried", "after") and len(v) == 3 and isinstance(v[2], int):
+            return (v[0], shift(v[1], off), v[2] + off)
+        if v[0] == "bv" and len(v) == 3 and isinstance(v[2], int):
+            return ("bv", v[1], v[2] + off)
+        return tuple(shift(x, off) if isinstance(x, tuple) else x for x in v)
+
+    def summarise(z):
+        """A call to a helper of the class / a function of the package that RETURNS a list: ("loop", loop id, iter, elt) when the list
+        is filled by a one-append-per-iteration loop, ("value", IR) when it is an expression of the arguments; None otherwise.  The
+        helper is analysed on its own (valueflow) and its parameters replaced by the argument values."""
+        if z in cache:
+            return cache[z]
+        cache[z] = None
+        callee = file_ = None
+        if z[0] == "meth" and z[1] in SELFS and len(z) == 5:
+            _, callee = pkg.resolve("TemplateLoader", z[2])
+            file_, args, kws = FILE, z[3], z[4]
+        elif z[0] == "call" and z[1][0] == "global" and not hasattr(builtins, z[1][1]):
+            name = z[1][1]
+            callee, file_ = pkg.functions.get((FILE, name)), FILE
+            imp = pkg.imports.get(FILE, {}).get(name)
+            if callee is None and imp and imp[0].startswith("."):
+                lvl = len(imp[0]) - len(imp[0].lstrip("."))
+                base = os.path.dirname(FILE)
+                for _ in range(lvl - 1):
+                    base = os.path.dirname(base)
+                file_ = os.path.join(base, *imp[0].lstrip(".").split(".")) + ".py" if imp[0].lstrip(".") else None
+                callee = pkg.functions.get((file_, imp[1])) if file_ else None
+            args, kws = z[2], z[3]
+        if callee is None or callee is fn or callee.args.vararg or callee.args.kwarg or any(k == "**" for k, _ in kws) or any(a[0] == "star" for a in args):
+            return None
+        decs = {ast.unparse(d) for d in callee.decorator_list}
+        params = [a.arg for a in callee.args.args]
+        if decs - {"staticmethod", "classmethod"}:
+            return None
+        if z[0] == "meth" and "staticmethod" not in decs:
+            params = params[1:]
+        if len(args) > len(params) or any(k not in params for k, _ in kws):
+            return None
+        given = dict(zip(params, args))
+        given.update(dict(kws))
+        defaults = dict(zip(params[len(params) - len(callee.args.defaults):], callee.args.defaults))
+        for p_ in params:
+            if p_ not in given and isinstance(defaults.get(p_), ast.Constant):
+                given[p_] = ("const", defaults[p_].value)
+        sub = Flow(callee, file_, resolver=(lambda name: pkg.resolve("TemplateLoader", name)[1]) if z[0] == "meth" else None)
+        rs = [f for f in sub.facts if f.kind == "return"]
+        if len(rs) != 1 or rs[0].loops:
+            return None
+        off = 1000 * next(serial)
+        bind = {("param", p_): v_ for p_, v_ in given.items()}
+        rv = simp(rs[0].value)
+        for lp_ in sub.all_loops.values():
+            extra_bvals.update({shift(k_, off): subst(shift(v_, off), bind) for k_, v_ in lp_.bvals.items()})
+        if rv[0] == "acc":
+            lb_ = loop_built_seq(sub, rv[1])
+            if lb_ is None:
+                return None
+            cache[z] = ("loop", lb_[0].id + off, subst(shift(lb_[0].iter, off), bind), subst(shift(lb_[1], off), bind))
+        elif rv[0] in ("comp", "copy", "phi", "ifexp", "param", "list"):
+            cache[z] = ("value", subst(shift(rv, off), bind))
+        return cache[z]
+    extra_bvals = {}
+
+    def seqs_of(it_):
+        """the sequences a loop walks position by position: through enumerate(..) and zip(..)"""
+        it_ = strip_transparent(simp(it_))
+        if it_[0] == "call" and it_[1] == ("global", "enumerate") and it_[2]:
+            return seqs_of(it_[2][0])
+        if it_[0] == "call" and it_[1] == ("global", "zip") and not it_[3]:
+            return [x for a in it_[2] for x in seqs_of(a)]
+        return [it_]
+
+    def sources(a, depth=0):
+        """[(sequence the view ranges over, filtered?)] of a list value: through if/else arms, comprehensions, zip, list-building helpers"""
+        a = simp(a)
+        if a[0] in ("phi", "ifexp"):
+            return sources(a[2], depth) + sources(a[3], depth)
+        if a[0] == "copy":
+            return sources(a[1], depth)
+        if a[0] == "comp" and len(a[3]) == 1:
+            tg_, it_, ifs_ = a[3][0]
+            return [(b_, f_ or bool(ifs_)) for z in seqs_of(it_) for b_, f_ in sources(z, depth)]
+        sm = summarise(a) if depth < 3 else None
+        if sm is not None and sm[0] == "loop":
+            return [x for z in seqs_of(sm[2]) for x in sources(z, depth + 1)]
+        if sm is not None:
+            return sources(sm[1], depth + 1)
+        return [(a, False)]
+
+    def opaque(b_):
+        """a sequence whose construction this rule cannot see (helper that could not be read, list filled by an unreviewed loop);
+        a parameter, an attribute, a builtin applied to those (reversed(..), sorted(..), x[1:]) is visible"""
+        if b_[0] in ("param", "attr", "global", "sub", "list", "tuple"):
+            return False
+        if b_[0] == "call" and b_[1][0] == "global" and hasattr(builtins, b_[1][1]):
+            return any(opaque(x) for x in b_[2])
+        return True
     b = match(("call", ("global", "enumerate"), (V("z"),), ()), it)
-    ok_it = bool(b) and b["z"][0] == "call" and b["z"][1] == ("global", "zip") and all(seq_base(a) == R for a in b["z"][2]) and not ifs
+    srcs = [x for a in seqs_of(b["z"]) for x in sources(a)] if b else []
+    # a list built one entry per reaction whose entries are then overwritten in place: somebody else writes the guard / rate text
+    for b_, _ in srcs:
+        if b_[0] == "acc":
+            inits = [f for f in fl.facts if f.kind == "init" and f.target == b_[1]]
+            stores = [f for f in fl.facts if f.kind in ("store", "augstore") and f.target == b_[1] and f.value is not None]
+            if inits and stores and all(not opaque(x) for f in inits for x, _ in sources(f.value)) \
+                    and not all(isinstance(simp(f.value), tuple) and simp(f.value)[0] == "meth" and simp(f.value)[2] == "rateexpr" for f in stores):
+                ctx.bad("R1", "_assign_rates:iteration", (FILE, stores[0].line),
+                        f"entries of `{b_[1]}` are overwritten in place after the list was built one entry per reaction: the statement of a reaction no longer carries "
+                        "that reaction's own guard / reac.rateexpr()", expected="no element store into the guard / rate lists", found=show(simp(stores[0].value))[:100])
+                return
+    if not b or any(opaque(b_) for b_, _ in srcs):
+        ctx.unrec("R1", "_assign_rates:iteration", (FILE, rets[0].line),
+                  "cannot see how the statements are paired with the reactions (expected enumerate(zip(guards, rates)) over views of `reactions`): " + show(it)[:160])
+        return
+    ok_it = all(b_ == R and not f_ for b_, f_ in srcs) and not ifs
     ctx.check(ok_it, "R1", "_assign_rates:iteration", (FILE, rets[0].line),
               "statements are built over enumerate(zip(guards, rates)) where both are unfiltered one-to-one views of the same `reactions` list",
               found=show(it)[:200])
     if not ok_it:
         return
-    elt = expand_bvals(fl, v[2])
+
+    # elements of lists returned by helpers: the helper's element expression at the same position
+    def helped(z):
+        z = simp(z)
+        if z[0] in ("phi", "ifexp"):
+            return helped(z[2]) or helped(z[3])
+        if z[0] == "call" and z[1] == ("global", "zip"):
+            return any(helped(a) for a in z[2])
+        return summarise(z) is not None
+
+    def at(z, l_, depth=0):
+        z = simp(z)
+        if z[0] in ("phi", "ifexp"):
+            return ("phi", z[1], at(z[2], l_, depth), at(z[3], l_, depth))
+        sm = summarise(z) if depth < 4 else None
+        if sm is not None and sm[0] == "loop":
+            return resolve(subst_loop(sm[3], sm[1], l_), depth + 1)
+        if sm is not None:
+            return at(sm[1], l_, depth + 1)
+        return simp(("elem", z, l_))
+
+    def subst_loop(v_, old, new_):
+        if not isinstance(v_, tuple) or not v_:
+            return v_
+        if v_[0] in ("elem", "idx") and len(v_) == 3 and v_[2] == old:
+            return (v_[0], subst_loop(v_[1], old, new_), new_)
+        return tuple(subst_loop(x, old, new_) if isinstance(x, tuple) else x for x in v_)
+
+    def resolve(v_, depth=0):
+        if not isinstance(v_, tuple) or not v_:
+            return v_
+        if v_[0] == "elem" and len(v_) == 3 and helped(v_[1]):
+            return at(v_[1], v_[2], depth)
+        if v_[0] == "idx" and len(v_) == 3 and all(b_ == R and not f_ for z in seqs_of(v_[1]) for b_, f_ in sources(z)):
+            return ("idx", R, v_[2])
+        return tuple(resolve(x, depth) if isinstance(x, tuple) else x for x in v_)
+    elt = simp(resolve(elt0))     # (simp first: elements of comprehensions are resolved while their variables are still bound)
+    allb = dict(extra_bvals)
+    for lp_ in fl.all_loops.values():
+        allb.update(lp_.bvals)
+    for _ in range(6):
+        e2 = simp(resolve(subst(elt, allb)))
+        if e2 == elt:
+            break
+        elt = e2
     lids = {x[2] for x in walk(elt) if isinstance(x, tuple) and len(x) == 3 and x[0] == "idx" and x[1] == R}
     if len(lids) != 1:
         ctx.unrec("R1", "_assign_rates:index", (FILE, rets[0].line), "cannot identify the enumerate counter in the statement")
@@ -188,7 +363,8 @@ def _r2(ctx):
                 decls = list(re.finditer(r"\b(?:realtype|double)\s+" + re.escape(arr) + r"\s*\[[^\]]+\]\s*(=\s*\{([^}]*)\})?\s*;", body))
                 before = [d for d in decls if d.start() < m.start()]
                 if not before:
-                    ctx.bad("R2", key, (rel, 0), f"`{arr}` is not declared in {f.name} before it is passed to {callee}")
+                    # a parameter / member / differently spelled declaration: where the array is initialised cannot be seen from here
+                    ctx.unrec("R2", key, (rel, 0), f"`{arr}` is not declared (realtype {arr}[..] ..;) in {f.name} before it is passed to {callee}: its initialisation is not visible")
                     continue
                 d = before[-1]
                 init = d.group(2)
@@ -361,14 +537,200 @@ def _windows_unconditional(ctx, pkg):
         for attr in ("temp_min", "temp_max"):
             st = [f for f in fl.facts if f.kind == "attrstore" and f.target == attr]
             if not st:
-                ctx.bad("R4", f"{cls}:{attr} stored", (file, fn.lineno), f"{cls}._parse_string never stores {attr}")
+                if any(isinstance(c, ast.Call) and (ast.unparse(c.func) in ("setattr", "vars") or (isinstance(c.func, ast.Attribute) and c.func.attr in ("update", "__setattr__"))) for c in ast.walk(fn)):
+                    ctx.unrec("R4", f"{cls}:{attr} stored", (file, fn.lineno), f"{cls}._parse_string has no plain store into self.{attr} (attributes are set indirectly)")
+                else:
+                    ctx.bad("R4", f"{cls}:{attr} stored", (file, fn.lineno), f"{cls}._parse_string never stores {attr}")
                 continue
             v = simp(st[-1].value)
-            ok = v[0] == "call" and v[1] == ("global", "float") and len(v[2]) == 1 and (v[2][0][0] in ("item", "sub") or (v[2][0][0] == "phi" and cls == "UCLCHEMReaction"))
-            ctx.check(ok, "R4", f"{cls}:{attr} = float(field)", (file, st[-1].line),
-                      f"self.{attr} is float(<the field of the record>)" if ok else
-                      f"self.{attr} is not simply float(<field>): a limit the code does not like (fractional, exponent notation) silently becomes another value / 'unbounded', so the window guard is lost",
-                      expected="float(<field>)", found=show(v)[:100])
+            inner = v[2][0] if v[0] == "call" and v[1] == ("global", "float") and len(v[2]) == 1 and not v[3] else None
+            while inner is not None and inner[0] == "meth" and inner[2] == "strip" and not inner[3]:
+                inner = inner[1]          # float() ignores surrounding blanks anyway
+            ok = inner is not None and (inner[0] in ("item", "sub", "elem") or (inner[0] == "phi" and cls == "UCLCHEMReaction"))
+            key = f"{cls}:{attr} = float(field)"
+            if ok:
+                ctx.ok("R4", key, (file, st[-1].line), f"self.{attr} is float(<the field of the record>)")
+            elif any(isinstance(x, tuple) and x and x[0] in ("phi", "ifexp", "bool") for x in walk(v)) or v[0] == "const" or len(st) > 1:
+                # a value chosen by a condition / a constant / a second store: the positive evidence of a fallback
+                ctx.bad("R4", key, (file, st[-1].line),
+                        f"self.{attr} is not simply float(<field>): a limit the code does not like (fractional, exponent notation) silently becomes another value / 'unbounded', so the window guard is lost",
+                        expected="float(<field>)", found=show(v)[:100])
+            else:
+                ctx.unrec("R4", key, (file, st[-1].line), f"cannot see that self.{attr} is float(<field of the record>): {show(v)[:100]}")
+
+
+def class_constants_inlined(pkg, cls: str, fn):
+    """Copy of method `fn` of class `cls` in which every read of a class-level constant -- an attribute of the class (or a base)
+    bound once, in the class body, to a literal tuple / list / set / frozenset of constants, never assigned or mutated anywhere in
+    the package -- through self / cls / the class name is replaced by that literal; static loops over such constants are then
+    unrolled like loops over a literal written in place."""
+    import copy
+    from ..normalize import normalize_function
+    mro = pkg.mro(cls)
+    touched = set()
+    for mod in pkg.modules.values():
+        for n in ast.walk(mod):
+            if isinstance(n, ast.Attribute) and isinstance(n.ctx, (ast.Store, ast.Del)):
+                touched.add(n.attr)
+            elif isinstance(n, ast.Call) and isinstance(n.func, ast.Attribute) and isinstance(n.func.value, ast.Attribute) \
+                    and n.func.attr in ("append", "extend", "insert", "remove", "pop", "clear", "sort", "reverse", "add", "discard", "update"):
+                touched.add(n.func.value.attr)
+            elif isinstance(n, ast.Call) and isinstance(n.func, ast.Name) and n.func.id == "setattr":
+                touched.add("*")
+
+    def const_of(name):
+        if name in touched or "*" in touched:
+            return None
+        _, node = pkg.resolve_attr(cls, name)
+        if node is None:
+            return None
+        if isinstance(node, ast.Call) and isinstance(node.func, ast.Name) and node.func.id in ("tuple", "list", "frozenset", "set") and len(node.args) == 1 and not node.keywords:
+            node = node.args[0]
+        if isinstance(node, (ast.Tuple, ast.List, ast.Set)) and all(isinstance(e, ast.Constant) for e in node.elts):
+            return ast.Tuple(elts=[copy.deepcopy(e) for e in node.elts], ctx=ast.Load()) if not isinstance(node, ast.List) else copy.deepcopy(node)
+        return None
+
+    class P(ast.NodeTransformer):
+        def visit_Attribute(self, n):
+            self.generic_visit(n)
+            if isinstance(n.ctx, ast.Load) and isinstance(n.value, ast.Name) and (n.value.id in ("self", "cls") or n.value.id in mro):
+                c = const_of(n.attr)
+                if c is not None:
+                    return ast.copy_location(c, n)
+            return n
+    new = P().visit(copy.deepcopy(fn))
+    ast.fix_missing_locations(new)
+    return normalize_function(new)
+
+
+def _replace_chain(x):
+    """x = base.replace(a1, b1)....replace(an, bn)  ->  (base, [(a, b), ...]); strip() links are looked through"""
+    reps = []
+    while x[0] == "meth" and ((x[2] == "replace" and len(x[3]) == 2 and not x[4] and all(a[0] == "const" and isinstance(a[1], str) for a in x[3])) or (x[2] == "strip" and not x[3])):
+        if x[2] == "replace":
+            reps.append((x[3][0][1], x[3][1][1]))
+        x = x[1]
+    return x, reps
+
+
+def _krome_window_stores(ctx, pkg, fn):
+    """The KROME window columns, decided on the reconstructed values (valueflow) -- independent of how the column chain is spelled:
+    every store into self.temp_min / self.temp_max happens on a path that implies the column keyword is tmin / tmax respectively, the
+    stored value is float(<the field of the same column>) after every comparison token was replaced by "" and d by e, and the path
+    excludes the no-bound spellings.  -> number of stores decided, or None when the stores are not in a form this rule understands."""
+    from ..valueflow import guards_satisfiable, strip_transparent
+    kcls = pkg.cls("KROMEReaction")
+
+    def res(name):
+        _, f = pkg.resolve("KROMEReaction", name)
+        return class_constants_inlined(pkg, "KROMEReaction", f) if f is not None and name.startswith("_") and not name.startswith("__") else None
+    fl = Flow(class_constants_inlined(pkg, "KROMEReaction", fn), KROME, resolver=res)
+    want_ops = {"<", ">", ".LE.", ".GE.", ".LT.", ".GT."}
+    want_none = {"N", "NONE", "N/A", "NO", ""}
+    stores = [f for f in fl.facts if f.kind == "attrstore" and f.target in ("temp_min", "temp_max") and f.extra.get("obj") == ("param", "self")]
+    if not stores:
+        return None
+    SELFP = ("param", "self")
+    decided = 0
+    seen = set()
+    for f in stores:
+        which = "tmin" if f.target == "temp_min" else "tmax"
+        other = "tmax" if which == "tmin" else "tmin"
+        W = (KROME, f.line)
+        # -- the column loop: for <keyword>, <field> in zip(<format keywords>, <fields of the line>)
+        lp = f.loops[-1] if f.loops else None
+        it = simp(lp.iter) if lp is not None else None
+        key = val = None
+        if it is not None and it[0] == "call" and it[1] == ("global", "zip") and len(it[2]) == 2 and not it[3]:
+            for a in it[2]:
+                a0 = strip_transparent(a)
+                if any(x == ("param", "react_string") for x in walk(a0)) and not any(isinstance(x, tuple) and x[:2] == ("attr", SELFP) for x in walk(a0)):
+                    val = ("elem", a0, lp.id)
+                elif any(isinstance(x, tuple) and len(x) == 3 and x[0] == "attr" and x[1] == SELFP and "format" in x[2] for x in walk(a0)):
+                    key = ("elem", a0, lp.id)
+        if key is None or val is None:
+            ctx.unrec("R4", f"KROME:{which}:column loop", W, "the store is not inside `for keyword, field in zip(<format keywords>, <fields of the line>)`")
+            continue
+        # -- guards: membership in a literal is the disjunction of equalities; `helper(..) is None` of a helper returning None on one arm only is that arm's condition
+        def lit_set(x):
+            return [e[1] for e in x[1]] if x[0] in ("list", "tuple", "set") and all(e[0] == "const" for e in x[1]) else None
+
+        def rewrite(c):
+            c = simp(c)
+            if c[0] == "cmp" and len(c[1]) == 1 and c[1][0] == "In" and c[2][0] == key and lit_set(c[2][1]) is not None:
+                alts = tuple(("cmp", ("Eq",), (key, ("const", k_))) for k_ in lit_set(c[2][1]))
+                return alts[0] if len(alts) == 1 else ("bool", "Or", alts)
+            if c[0] == "cmp" and len(c[1]) == 1 and c[1][0] in ("Is", "Eq") and c[2][1] == ("const", None) and c[2][0][0] == "phi":
+                ph = c[2][0]
+                if ph[2] == ("const", None) and ph[3][0] == "call":
+                    return rewrite(ph[1])
+                if ph[3] == ("const", None) and ph[2][0] == "call":
+                    return ("unop", "Not", rewrite(ph[1]))
+            if c[0] == "bool":
+                return ("bool", c[1], tuple(rewrite(x) for x in c[2]))
+            if c[0] == "unop" and c[1] == "Not":
+                return ("unop", "Not", rewrite(c[2]))
+            return c
+        from ..valueflow import split_guard
+        G = [g2 for c, pol in f.guards for g2 in split_guard((rewrite(c), pol))]
+        keyatoms = sorted({x for c, _ in G for x in walk(c) if isinstance(x, tuple) and len(x) == 3 and x[0] == "cmp" and x[1] == ("Eq",) and x[2][0] == key and x[2][1][0] == "const"}, key=repr)
+        excl = [(("bool", "And", (a, b)), False) for i, a in enumerate(keyatoms) for b in keyatoms[i + 1:]]
+        KG = [(c, pol) for c, pol in G if any(x in keyatoms for x in walk(c))]
+        is_ = lambda k_: ("cmp", ("Eq",), (key, ("const", k_)))
+        implies = lambda k_: not guards_satisfiable(KG + excl, [(is_(k_), False)])
+        kk = f"KROME:{which}:target"
+        if implies(which):
+            ctx.ok("R4", kk, W, f"self.{f.target} is stored only where the column keyword is {which!r}")
+        elif implies(other):
+            ctx.bad("R4", kk, W, f"the {other} field feeds self.{f.target}: the window guard is built from the wrong limit", expected=f"keyword == {which!r}", found=f"keyword == {other!r}")
+            continue
+        else:
+            ctx.unrec("R4", kk, W, f"cannot decide from the guards of the store which column feeds self.{f.target}: " + "; ".join(f"{show(c)[:60]}={pol}" for c, pol in KG)[:200])
+            continue
+        # -- the stored value on this path
+        assume = {c: pol for c, pol in G}
+        v = simp(peval(simp(f.value), assume))
+        if not (v[0] == "call" and v[1] == ("global", "float") and len(v[2]) == 1 and not v[3]):
+            return None
+        base, reps = _replace_chain(v[2][0])
+        if base != val:
+            if any(isinstance(x, tuple) and x and x[0] in ("carried", "after", "acc", "unknown") for x in walk(base)) or not reps:
+                return None
+            ctx.bad("R4", f"KROME:{which}:field", W, f"self.{f.target} is decoded from {show(base)[:80]}, not from the field paired with the keyword {which!r}", found=show(base)[:100])
+            continue
+        decided += 1
+        seen.add(which)
+        ops = {a for a, b in reps if b == ""}
+        ctx.check(want_ops <= ops, "R4", f"KROME:{which}:operator tokens", W,
+                  "every comparison token of the KROME syntax is stripped before float()", expected=str(sorted(want_ops)), found=str(sorted(ops)))
+        ctx.check(any(a in ("d", "D") and b in ("e", "E") for a, b in reps), "R4", f"KROME:{which}:d-exponent", W, "Fortran d-exponents are converted before float()",
+                  found=str([r_ for r_ in reps if r_[1] != ""]))
+        # -- no-bound spellings: the path excludes <field>.upper() in {N, NONE, N/A, NO, ""}
+        nones, seen_test, other_tests = set(), False, []
+        for c, pol in G:
+            if c[0] == "cmp" and len(c[1]) == 1 and c[1][0] == "In" and lit_set(c[2][1]) is not None and not pol:
+                left, _ = _replace_chain(c[2][0])
+                if left == ("meth", val, "upper", (), ()) or (left[0] == "meth" and left[2] == "upper" and _replace_chain(left[1])[0] == val):
+                    nones |= set(lit_set(c[2][1]))
+                    seen_test = True
+                    continue
+            if c[0] == "cmp" and c[1] == ("Eq",) and c[2][0] == val and c[2][1] == ("const", "") and not pol:
+                nones.add("")
+                continue
+            if any(x == val for x in walk(c)) and not any(x in keyatoms for x in walk(c)):
+                other_tests.append(c)
+        kk = f"KROME:{which}:no-bound spellings"
+        if want_none <= nones:
+            ctx.ok("R4", kk, W, "N / NONE / N/A / NO / empty keep the default (unbounded)")
+        elif seen_test or not other_tests:
+            ctx.bad("R4", kk, W, "N / NONE / N/A / NO / empty must keep the default (unbounded): a spelling that is not excluded reaches float()", expected=str(sorted(want_none)), found=str(sorted(nones)))
+        else:
+            ctx.unrec("R4", kk, W, "the no-bound spellings are tested in a way this rule cannot decide: " + "; ".join(show(c)[:60] for c in other_tests)[:160])
+    if decided:
+        for which in ("tmin", "tmax"):
+            if which not in seen and not any(o.rule == "R4" and o.key.startswith(f"KROME:{which}:") for o in ctx.obs):
+                ctx.bad("R4", f"KROME:{which}:target", (KROME, fn.lineno), f"the {which} column is never stored into self.temp_{which[1:]}")
+    return decided
 
 
 def _r4(ctx):
@@ -376,52 +738,12 @@ def _r4(ctx):
     _windows_unconditional(ctx, pkg)
     fn = pkg.method("KROMEReaction", "_parse_string")
     ctx.saw(KROME, "KROMEReaction._parse_string")
-    want_ops = {"<", ">", ".LE.", ".GE.", ".LT.", ".GT."}
-    want_none = {"N", "NONE", "N/A", "NO", ""}
-    found = 0
-    # the loop variables by role: `for <key>, <value> in zip(<format keywords>, <fields>)`
-    keyname, valname = "key", "value"
-    for node in ast.walk(fn):
-        if isinstance(node, ast.For) and isinstance(node.iter, ast.Call) and ast.unparse(node.iter.func) == "zip" and isinstance(node.target, ast.Tuple) \
-                and len(node.target.elts) == 2 and all(isinstance(e, ast.Name) for e in node.target.elts):
-            keyname, valname = node.target.elts[0].id, node.target.elts[1].id
-    for node in ast.walk(fn):
-        if isinstance(node, ast.If) and isinstance(node.test, ast.Compare) and ast.unparse(node.test.left) == keyname and \
-                isinstance(node.test.comparators[0], ast.Constant) and node.test.comparators[0].value in ("tmin", "tmax"):
-            which = node.test.comparators[0].value
-            found += 1
-            # the branch together with the helper methods it calls (self._x(value)): extracted code is still this branch's code
-            stmts = list(node.body)
-            kcls = pkg.cls("KROMEReaction")
-            for c_ in ast.walk(ast.Module(body=node.body, type_ignores=[])):
-                if isinstance(c_, ast.Call) and isinstance(c_.func, ast.Attribute) and isinstance(c_.func.value, ast.Name) and c_.func.value.id in ("self", "cls") \
-                        and c_.func.attr in kcls.methods and c_.func.attr.startswith("_"):
-                    stmts += list(kcls.methods[c_.func.attr].body)
-            body = ast.Module(body=stmts, type_ignores=[])
-            src = ast.unparse(body)
-            nones, ops = set(), set()
-            for x in ast.walk(body):
-                if isinstance(x, ast.Compare) and isinstance(x.ops[0], (ast.NotIn, ast.In)) and isinstance(x.comparators[0], (ast.List, ast.Tuple, ast.Set)):
-                    nones |= set(ast.literal_eval(x.comparators[0]))
-                    upper = ".upper()" in ast.unparse(x.left)
-                if isinstance(x, ast.For) and isinstance(x.iter, (ast.List, ast.Tuple)):
-                    ops |= set(ast.literal_eval(x.iter))
-                # the same loop written out (or unrolled by the normaliser): <v>.replace("<token>", "")
-                if isinstance(x, ast.Call) and isinstance(x.func, ast.Attribute) and x.func.attr == "replace" and len(x.args) == 2 \
-                        and all(isinstance(a_, ast.Constant) and isinstance(a_.value, str) for a_ in x.args) and x.args[1].value == "":
-                    ops.add(x.args[0].value)
-            ctx.check(want_none <= nones, "R4", f"KROME:{which}:no-bound spellings", (KROME, node.lineno),
-                      "N / NONE / N/A / NO / empty keep the default (unbounded)", expected=str(sorted(want_none)), found=str(sorted(nones)))
-            ctx.check(want_ops <= ops, "R4", f"KROME:{which}:operator tokens", (KROME, node.lineno),
-                      "every comparison token of the KROME syntax is stripped before float()", expected=str(sorted(want_ops)), found=str(sorted(ops)))
-            ctx.check(re.search(r"\w+\.replace\('d', 'e'\)", src) is not None, "R4", f"KROME:{which}:d-exponent", (KROME, node.lineno), "Fortran d-exponents are converted before float()")
-            attr = "temp_min" if which == "tmin" else "temp_max"
-            tgt = [ast.unparse(t) for x in ast.walk(ast.Module(body=node.body, type_ignores=[])) if isinstance(x, ast.Assign) for t in x.targets if isinstance(t, ast.Attribute)]
-            ctx.check(tgt == [f"self.{attr}"], "R4", f"KROME:{which}:target", (KROME, node.lineno), f"the {which} field feeds self.{attr} only", found=str(tgt))
-    if found < 2:
+    found = _krome_window_stores(ctx, pkg, fn)
+    if found is None:
+        # no plain store / not float(<replace chain over the field>): a number extractor (regular expression) or something else
         _krome_regex_extractor(ctx, pkg, fn)
         return
-    ctx.floor("R4", "KROME window branches", found, 2, (KROME, fn.lineno))
+    ctx.floor("R4", "KROME window stores", found, 2, (KROME, fn.lineno))
     # defaults
     init = pkg.method("Reaction", "__init__")
     names = [a.arg for a in init.args.args]
@@ -480,4 +802,75 @@ MUTANTS = [
 BENIGN = [
     {"name": "rename-comprehension-var", "file": T, "old": 'ltranges = [f"Tgas>={r.temp_min}" if r.temp_min > 0 else "" for r in reactions]', "new": 'ltranges = [f"Tgas>={x.temp_min}" if x.temp_min > 0 else "" for x in reactions]'},
     {"name": "concat-guard", "file": T, "old": '"".join([lt, " && " if lt and ut else "", ut])', "new": 'lt + (" && " if lt and ut else "") + ut'},
+]
+_STMT_COMP = (
+    '        rateassign = [\n            "\\n".join(\n                [\n                    f"if ({trange}) {{",\n                    f"{rate_sym}[{ridx}] = {rateexpr};",\n'
+    '                    f"}}",\n                ]\n            )\n            if trange\n            else f"{rate_sym}[{ridx}] = {rateexpr};"\n'
+    '            for ridx, (trange, rateexpr) in enumerate(zip(tranges, rateexprs))\n        ]\n')
+_STMT_LOOP = (
+    '        rateassign = []\n        for ridx, (trange, rateexpr) in enumerate(zip(tranges, rateexprs)):\n            assign = f"{rate_sym}[{ridx}] = {rateexpr};"\n'
+    '            if trange:\n                assign = "if (" + trange + ") {\\n" + assign + "\\n}"\n            rateassign.append(assign)\n')
+_LT = 'ltranges = [f"Tgas>={r.temp_min}" if r.temp_min > 0 else "" for r in reactions]'
+_UT = 'utranges = [f"Tgas<{r.temp_max}" if r.temp_max > 0 else "" for r in reactions]'
+MUTANTS += [
+    # the statement list written as a loop: the same defects are still seen
+    {"name": "loop-form-upper-inclusive", "edits": [{"file": T, "old": _STMT_COMP, "new": _STMT_LOOP}, {"file": T, "old": 'f"Tgas<{r.temp_max}"', "new": 'f"Tgas<={r.temp_max}"'}], "rules": ["R1"]},
+    {"name": "loop-form-guard-not-enclosing", "edits": [{"file": T, "old": _STMT_COMP, "new": _STMT_LOOP.replace('"if (" + trange + ") {\\n" + assign + "\\n}"', '"if (" + trange + ") {\\n}\\n" + assign')}], "rules": ["R1"]},
+    {"name": "limits-helper-other-bound", "edits": [
+        {"file": T, "old": "    def _assign_rates(\n", "new": "    @staticmethod\n    def _limits(reactions, bound, rel):\n        return [f\"Tgas{rel}{getattr(x, bound)}\" if getattr(x, bound) > 0 else \"\" for x in reactions]\n\n    def _assign_rates(\n"},
+        {"file": T, "old": _LT, "new": 'ltranges = self._limits(reactions, "temp_max", ">=")'}], "rules": ["R1"]},
+]
+BENIGN += [
+    {"name": "statements-built-by-loop", "file": T, "old": _STMT_COMP, "new": _STMT_LOOP},
+    {"name": "limits-by-helper-getattr", "edits": [
+        {"file": T, "old": "    def _assign_rates(\n", "new": "    @staticmethod\n    def _limits(reactions, bound, rel):\n        return [f\"Tgas{rel}{getattr(x, bound)}\" if getattr(x, bound) > 0 else \"\" for x in reactions]\n\n    def _assign_rates(\n"},
+        {"file": T, "old": _LT, "new": 'ltranges = self._limits(reactions, "temp_min", ">=")'},
+        {"file": T, "old": _UT, "new": 'utranges = self._limits(reactions, "temp_max", "<")'}]},
+    {"name": "guard-joined-through-filter", "file": T, "old": '"".join([lt, " && " if lt and ut else "", ut])\n            for lt, ut in zip(ltranges, utranges)', "new": '" && ".join(filter(None, pair))\n            for pair in zip(ltranges, utranges)'},
+]
+_K_NONE = 'if value.upper() not in ["N", "NONE", "N/A", "NO", ""]:'
+_K_OPS = 'for opstr in ["<", ">", ".LE.", ".GE.", ".LT.", ".GT."]:'
+_K_CLS = '    def _parse_string(self, react_string) -> None:\n        self.source = "krome"\n'
+
+
+def _k_consts(nolimit, ops):
+    return [{"file": KROME, "old": _K_CLS, "new": f"    _nolimit = {nolimit}\n    _ops = {ops}\n\n" + _K_CLS},
+            {"file": KROME, "old": _K_NONE, "new": "if value.upper() not in self._nolimit:", "count": 2},
+            {"file": KROME, "old": _K_OPS, "new": "for opstr in self._ops:", "count": 2}]
+
+
+_K_ARMS_OLD = ('                elif key == "tmin":\n                    ' + _K_NONE + '\n                        ' + _K_OPS + '\n                            value = value.replace(opstr, "")\n'
+               '                        value = value.replace("d", "e")\n                        self.temp_min = float(value)\n'
+               '                elif key == "tmax":\n                    ' + _K_NONE + '\n                        ' + _K_OPS + '\n                            value = value.replace(opstr, "")\n'
+               '                        value = value.replace("d", "e")\n                        self.temp_max = float(value)\n')
+
+
+def _k_merged(first, second):
+    return ('                elif key == "tmin" or key == "tmax":\n                    if value.upper() in ["N", "NONE", "N/A", "NO", ""]:\n                        continue\n'
+            '                    ' + _K_OPS + '\n                        value = value.replace(opstr, "")\n                    bound = float(value.replace("d", "e"))\n'
+            f'                    if key == "tmin":\n                        self.{first} = bound\n                    else:\n                        self.{second} = bound\n')
+
+
+MUTANTS += [
+    {"name": "krome-class-constant-lacks-n/a", "edits": _k_consts('("N", "NONE", "NO", "")', '("<", ">", ".LE.", ".GE.", ".LT.", ".GT.")'), "rules": ["R4"]},
+    {"name": "krome-class-constant-lacks-.GE.", "edits": _k_consts('("N", "NONE", "N/A", "NO", "")', '("<", ">", ".LE.", ".LT.", ".GT.")'), "rules": ["R4"]},
+    {"name": "krome-merged-arm-swapped", "file": KROME, "old": _K_ARMS_OLD, "new": _k_merged("temp_max", "temp_min"), "rules": ["R4"]},
+    {"name": "krome-d-exponent-dropped", "file": KROME, "old": '                        value = value.replace("d", "e")\n                        self.temp_min', "new": '                        self.temp_min', "rules": ["R4"]},
+]
+BENIGN += [
+    {"name": "krome-window-tokens-as-class-constants", "edits": _k_consts('("N", "NONE", "N/A", "NO", "")', '("<", ">", ".LE.", ".GE.", ".LT.", ".GT.")')},
+    {"name": "krome-window-arms-merged", "file": KROME, "old": _K_ARMS_OLD, "new": _k_merged("temp_min", "temp_max")},
+]
+_RA = "        rateassign = [\n"
+MUTANTS += [
+    {"name": "pairing-filtered-before-enumerate", "edits": [
+        {"file": T, "old": _RA, "new": '        assigned = [(tr, expr) for tr, expr in zip(tranges, rateexprs) if expr != "0.0"]\n' + _RA},
+        {"file": T, "old": "in enumerate(zip(tranges, rateexprs))", "new": "in enumerate(assigned)"}], "rules": ["R1"]},
+    {"name": "rates-overwritten-in-place", "file": T, "old": _RA, "new": '        first_use = {}\n        for ridx, rateexpr in enumerate(rateexprs):\n            prev = first_use.setdefault(rateexpr, ridx)\n'
+                                                                        '            if prev != ridx:\n                rateexprs[ridx] = f"{rate_sym}[{prev}]"\n' + _RA, "rules": ["R1"]},
+    {"name": "rates-wrapped-by-rewriter", "file": T, "old": _RA, "new": '        rateexprs = [x.replace("pow(", "powf(") for x in rateexprs]\n' + _RA, "rules": ["R1"]},
+    {"name": "rates-shared-by-loop-helper", "edits": [
+        {"file": T, "old": "    def _assign_rates(\n", "new": '    @staticmethod\n    def _share(exprs, symbol):\n        first = {}\n        shared = []\n        for idx, expr in enumerate(exprs):\n'
+                                                             '            ref = first.setdefault(expr, idx)\n            shared.append(f"{symbol}[{ref}]" if ref != idx else expr)\n        return shared\n\n    def _assign_rates(\n'},
+        {"file": T, "old": _RA, "new": "        rateexprs = self._share(rateexprs, rate_sym)\n" + _RA}], "rules": ["R1"]},
 ]
